@@ -60,8 +60,14 @@ def _nontrivial(ctx):
 def _sched_task(task):
     from ..world import Stats
 
+    import time as _t
+
     st = Stats()
     for n in task["ns"]:
+        if task.get("deadline_abs") and _t.time() > task["deadline_abs"]:
+            st.exhaustive = False
+            st.caps.append({"task": task["label"], "cap": "wall-clock budget", "first_n_not_run": n})
+            break
         for rm in RHOS:
             N = gpo_N(n, rm)
             if n // (2 * N) == 0:
